@@ -66,6 +66,14 @@ REGISTRY["C19"] = {
             "z3 decides every comparison, each unit is run to path exhaustion. tee(): 2-3 consumer tasks with symbolic sleeps between anext() calls on the virtual loop.",
     "note": "Trusted: z3, CrossHair's int/list/tuple modelling, the C itertools as reference. Outside: longer inputs, non-int elements, uvloop, trio.",
 }
+REGISTRY["C11"] = {
+    "harnesses": ["symx.harness.c11_cond"],
+    "level": "model_checking",
+    "text": "Bounded symbolic model checking of the real Condition/Event code: (A) notify(n) with n symbolic in [0,2^30] and notify_all on queues of <=3 waiters; "
+            "(B) 2-3 waiters, two notifications with symbolic n and instants, the lock held for a symbolic time after notify, one waiter cancelled (scope or native) at a symbolic "
+            "instant incl. the cycle of its notification; oracle: counting automaton over the log (no spurious, no lost, waiting order, lock held on return, refusals without the lock).",
+    "note": "Trusted: z3, CrossHair, CPython's C Task/Future/deque, VLoop stubs. Outside: >3 waiters, >2 notifications, uvloop, trio.",
+}
 
 NOT_APPLICABLE = {
     "C17": "TLS record framing/fragmentation/truncation happens inside OpenSSL (ssl.SSLObject/MemoryBIO, C code): no available engine can execute it symbolically, and a stub would make the check a statement about the stub (DESIGN.md section 3, C17).",
